@@ -75,7 +75,7 @@ def plan(prop, tier, seed, ex_tables=None):
         for t in corpus.wide(nwide, seed, 140 if tier == 'quick' else 200):
             out.append((t, False))
     if prop in ('C01', 'C02'):
-        for t in list(corpus.widesquare(seed, big=(tier == 'thorough'))) + corpus.giant(seed):
+        for t in list(corpus.widesquare(seed, big=(tier == 'thorough'))) + corpus.giant(seed) + corpus.giant20k(seed):
             out.append((t, False))
     if prop == 'C18':
         for t in corpus.bigintent():
